@@ -1,0 +1,229 @@
+// apparmor.d - Full set of apparmor profiles
+// SPDX-License-Identifier: GPL-2.0-only
+
+//go:build verif
+
+// Machine-checked contracts for rule merging (property C10). Comment-only; see
+// contracts_verif.go.
+package aa
+
+// Denotation of each rule kind, from apparmor.d(5): the facts a rule expresses are the
+// tuples (qualifier fields, subject fields, one element of each permission list); a
+// permission list marked "all" expresses every value when it is empty.
+//@ denot File: qualifier(Audit, AccessType, Owner) subject(Path, Target) perms(Access)
+//@ denot Mount: qualifier(Audit, AccessType) subject(Source, MountPoint, FsType) perms(Options all)
+//@ denot Remount: qualifier(Audit, AccessType) subject(MountPoint, FsType) perms(Options all)
+//@ denot Umount: qualifier(Audit, AccessType) subject(MountPoint, FsType) perms(Options all)
+//@ denot Signal: qualifier(Audit, AccessType) subject(Peer) perms(Access all, Set all)
+//@ denot Ptrace: qualifier(Audit, AccessType) subject(Peer) perms(Access all)
+//@ denot Unix: qualifier(Audit, AccessType) subject(Type, Protocol, Address, Label, Attr, Opt, PeerLabel, PeerAddr) perms(Access all)
+//@ denot Dbus: qualifier(Audit, AccessType) subject(Bus, Name, Path, Interface, Member, PeerName, PeerLabel) perms(Access all)
+//@ denot Mqueue: qualifier(Audit, AccessType) subject(Type, Label, Name) perms(Access all)
+//@ denot IOUring: qualifier(Audit, AccessType) subject(Label) perms(Access all)
+//@ denot Userns: qualifier(Audit, AccessType)
+//@ denot All: unit
+//@ denot Variable: subject(Name, Define) perms(Values)
+//@ denot Link: qualifier(Audit, AccessType, Owner, Subset) subject(Path, Target)
+//@ denot Capability: qualifier(Audit, AccessType) perms(Names)
+//@ denot Network: qualifier(Audit, AccessType) subject(Domain, Type, Protocol, Source, Destination, Port)
+//@ denot Rlimit: subject(Key, Op, Value)
+//@ denot ChangeProfile: qualifier(Audit, AccessType) subject(ExecMode, Exec, ProfileName)
+//@ denot PivotRoot: qualifier(Audit, AccessType) subject(OldRoot, NewRoot, TargetProfile)
+//@ denot Abi: subject(Path, IsMagic)
+//@ denot Alias: subject(Path, RewrittenPath)
+//@ denot Include: subject(IfExists, Path, IsMagic)
+//@ denot Comment: subject(Comment)
+//@ denot Hat: subject(Name)
+
+//@ func merge
+//@   opt prop=C10
+//@   assigns nothing
+//@   ensures imp(kind == FILE || kind == VARIABLE, forall_str(x, mem(result, x) == (mem(a, x) || mem(b, x))))
+//@   ensures imp(kind == FILE || kind == VARIABLE, (len(result) == 0) == (len(a) == 0 && len(b) == 0))
+//@   ensures imp(kind != FILE && kind != VARIABLE && (len(a) == 0 || len(b) == 0), len(result) == 0)
+//@   ensures imp(kind != FILE && kind != VARIABLE && len(a) > 0 && len(b) > 0, len(result) > 0 && forall_str(x, mem(result, x) == (mem(a, x) || mem(b, x))))
+
+//@ func (*Base).merge
+//@   opt prop=C10
+//@   assigns r.NoNewPrivs, r.FileInherit, r.Optional, r.Comment
+//@   ensures result
+
+//@ func (*MountConditions).Merge
+//@   opt prop=C10
+//@   assigns m.Options
+//@   ensures result == (old(m.FsType) == other.FsType)
+//@   ensures imp(!result, m.Options == old(m.Options))
+//@   ensures imp(result && (len(old(m.Options)) == 0 || len(other.Options) == 0), len(m.Options) == 0)
+//@   ensures imp(result && len(old(m.Options)) > 0 && len(other.Options) > 0, len(m.Options) > 0 && forall_str(x, mem(m.Options, x) == (mem(old(m.Options), x) || mem(other.Options, x))))
+
+// Every Rule.Merge: when it returns true the receiver expresses exactly the facts the two
+// rules expressed before; when it returns false the receiver is unchanged; the argument is
+// never changed (frame). Generated from the denotation table above.
+//@ func (*File).Merge
+//@   opt prop=C10
+//@   requires typeIs(other, "*File")
+//@   assigns r.Access, r.Base
+//@   mergelaws
+
+//@ func (*Mount).Merge
+//@   opt prop=C10
+//@   requires typeIs(other, "*Mount")
+//@   assigns r.MountConditions.Options, r.Base
+//@   mergelaws
+
+//@ func (*Remount).Merge
+//@   opt prop=C10
+//@   requires typeIs(other, "*Remount")
+//@   assigns r.MountConditions.Options, r.Base
+//@   mergelaws
+
+//@ func (*Umount).Merge
+//@   opt prop=C10
+//@   requires typeIs(other, "*Umount")
+//@   assigns r.MountConditions.Options, r.Base
+//@   mergelaws
+
+//@ func (*Signal).Merge
+//@   opt prop=C10
+//@   requires typeIs(other, "*Signal")
+//@   assigns r.Access, r.Set, r.Base
+//@   mergelaws
+
+//@ func (*Ptrace).Merge
+//@   opt prop=C10
+//@   requires typeIs(other, "*Ptrace")
+//@   assigns r.Access, r.Base
+//@   mergelaws
+
+//@ func (*Unix).Merge
+//@   opt prop=C10
+//@   requires typeIs(other, "*Unix")
+//@   assigns r.Access, r.Base
+//@   mergelaws
+
+//@ func (*Dbus).Merge
+//@   opt prop=C10
+//@   requires typeIs(other, "*Dbus")
+//@   assigns r.Access, r.Base
+//@   mergelaws
+
+//@ func (*Mqueue).Merge
+//@   opt prop=C10
+//@   requires typeIs(other, "*Mqueue")
+//@   assigns r.Access, r.Base
+//@   mergelaws
+
+//@ func (*IOUring).Merge
+//@   opt prop=C10
+//@   requires typeIs(other, "*IOUring")
+//@   assigns r.Access, r.Base
+//@   mergelaws
+
+//@ func (*Userns).Merge
+//@   opt prop=C10
+//@   requires typeIs(other, "*Userns")
+//@   assigns r.Base
+//@   mergelaws
+
+//@ func (*All).Merge
+//@   opt prop=C10
+//@   requires typeIs(other, "*All")
+//@   assigns r.Base
+//@   mergelaws
+
+//@ func (*Variable).Merge
+//@   opt prop=C10
+//@   requires typeIs(other, "*Variable")
+//@   assigns r.Values, r.Base
+//@   mergelaws
+
+//@ func (*Link).Merge
+//@   opt prop=C10
+//@   requires typeIs(other, "*Link")
+//@   assigns nothing
+//@   mergelaws
+
+//@ func (*Capability).Merge
+//@   opt prop=C10
+//@   requires typeIs(other, "*Capability")
+//@   assigns nothing
+//@   mergelaws
+
+//@ func (*Network).Merge
+//@   opt prop=C10
+//@   requires typeIs(other, "*Network")
+//@   assigns nothing
+//@   mergelaws
+
+//@ func (*Rlimit).Merge
+//@   opt prop=C10
+//@   requires typeIs(other, "*Rlimit")
+//@   assigns nothing
+//@   mergelaws
+
+//@ func (*ChangeProfile).Merge
+//@   opt prop=C10
+//@   requires typeIs(other, "*ChangeProfile")
+//@   assigns nothing
+//@   mergelaws
+
+//@ func (*PivotRoot).Merge
+//@   opt prop=C10
+//@   requires typeIs(other, "*PivotRoot")
+//@   assigns nothing
+//@   mergelaws
+
+//@ func (*Abi).Merge
+//@   opt prop=C10
+//@   requires typeIs(other, "*Abi")
+//@   assigns nothing
+//@   mergelaws
+
+//@ func (*Alias).Merge
+//@   opt prop=C10
+//@   requires typeIs(other, "*Alias")
+//@   assigns nothing
+//@   mergelaws
+
+//@ func (*Include).Merge
+//@   opt prop=C10
+//@   requires typeIs(other, "*Include")
+//@   assigns nothing
+//@   mergelaws
+
+//@ func (*Comment).Merge
+//@   opt prop=C10
+//@   requires typeIs(other, "*Comment")
+//@   assigns nothing
+//@   mergelaws
+
+//@ func (*Hat).Merge
+//@   opt prop=C10
+//@   requires typeIs(other, "*Hat")
+//@   assigns nothing
+//@   mergelaws
+
+// Rules.Delete / Rules.Merge. D(x) is the ghost predicate "rule x expresses the
+// arbitrary-but-fixed fact"; the calls through the Rule interface use the interface-level
+// contracts that the per-kind obligations above (and the order laws of C11) establish.
+//@ func (Rules).Delete
+//@   opt prop=C10
+//@   requires 0 <= i && i < len(r)
+//@   assigns nothing
+//@   ensures len(result) == len(r) - 1
+//@   ensures forall(k, 0, i, result[k] == r[k])
+//@   ensures forall(k, i, len(result), result[k] == r[k+1])
+//@   ensures forall(k, i+1, len(r), result[k-1] == r[k])
+
+//@ func (Rules).Merge
+//@   opt prop=C10
+//@   rulesmerge
+//@   assigns nothing
+//@   loop 1 invariant 0 <= i && i <= len(r)
+//@   loop 1 invariant exists(k, 0, len(r), D(r[k])) == old(exists(k, 0, len(r), D(r[k])))
+//@   loop 1 decreases len(r) - i
+//@   loop 2 invariant 0 <= i && i < j && j <= len(r) && len(r) <= len(at(1, r))
+//@   loop 2 invariant exists(k, 0, len(r), D(r[k])) == old(exists(k, 0, len(r), D(r[k])))
+//@   loop 2 decreases len(r) - j
+//@   ensures exists(k, 0, len(result), D(result[k])) == old(exists(k, 0, len(r), D(r[k])))
+
